@@ -338,6 +338,87 @@ class KmerText(Harness):
         return None
 
 
+class MotifScores(Harness):
+    """get_motif_scores: one score per window lying inside its sequence, the sum of the matrix entries of the window's letters"""
+    name = "motif_scores"
+    functions = ("get_motif_scores", "PWM.calculate_scores/as_valid_encoded_array", "PWM.calculate_score (PositionWeightMatrix rolling window)")
+    bounds = {"quick": "window sizes 1-3 over ACGT, matrix entries (letter+1)*10^position (so that every letter/position pair is told apart); "
+                       "rows with lengths from {0, w-1, w, w+1} in 1-3 rows; every letter assignment",
+              "thorough": "window sizes 1-4, more row patterns"}
+    assumptions = ("matrix entries are small integers held as doubles: all sums are exact, no rounding is involved",)
+
+    def skeletons(self, tier, seed):
+        out = []
+        for w in ((1, 2, 3) if tier == "quick" else (1, 2, 3, 4)):
+            for lens in shapes_for(w, tier):
+                out.append(dict(enc="ACGTEncoding", w=w, lens=lens, api="get_motif_scores"))
+            out.append(dict(enc="ACGTEncoding", w=w, lens=[w + 1, w], api="rolling_window"))
+        return out
+
+    def inputs(self, skel, V):
+        for i in range(sum(skel["lens"])):
+            V.int(f"l{i}", 0, 3)
+
+    def _matrix(self, w):
+        return [[(a + 1) * 10 ** k for k in range(w)] for a in range(4)]
+
+    def call(self, skel, x, ctx):
+        import numpy
+        from bionumpy.sequence.position_weight_matrix import PWM, get_motif_scores, get_motif_scores_old
+        pwm = PWM(ctx.np.array(numpy.array(self._matrix(skel["w"]), dtype=float)) if ctx.mode != "plain" else numpy.array(self._matrix(skel["w"]), dtype=float), "ACGT")
+        seq = make_ragged(ctx, skel, x)
+        fn = get_motif_scores if skel["api"] == "get_motif_scores" else get_motif_scores_old
+        res = fn(seq, pwm)
+        return dict(rows=ctx.lst(res))
+
+    def _expected(self, skel, vals, z):
+        M, w = self._matrix(skel["w"]), skel["w"]
+        rows = rows_terms(skel, vals)
+        out = []
+        for row in rows:
+            sc = []
+            for j in range(max(0, len(row) - w + 1)):
+                tot = 0
+                for k in range(w):
+                    c = row[j + k]
+                    if z:
+                        t = z3.IntVal(M[3][k])
+                        for a in (2, 1, 0):
+                            t = z3.If(c == a, M[a][k], t)
+                    else:
+                        t = M[c][k]
+                    tot = tot + t
+                sc.append(tot)
+            out.append(sc)
+        return out
+
+    def post(self, skel, x, out):
+        if isinstance(out, Exc):
+            return False
+        from symnp.core import T
+        exp = self._expected(skel, [x[f"l{i}"].t for i in range(sum(skel["lens"]))], True)
+        if len(out["rows"]) != len(exp):
+            return False
+        conj = []
+        for got, e in zip(out["rows"], exp):
+            if len(got) != len(e):
+                return False
+            for g, t in zip(got, e):
+                gt = T(g)
+                conj.append((gt if z3.is_real(gt) else z3.ToReal(gt)) == z3.ToReal(t))
+        return z_and(conj)
+
+    def oracle(self, skel, cx, cout):
+        if isinstance(cout, Exc):
+            return f"raised {cout}"
+        vals = [cx[f"l{i}"] for i in range(sum(skel["lens"]))]
+        exp = self._expected(skel, vals, False)
+        got = [[float(v) for v in r] for r in cout["rows"]]
+        if got != [[float(v) for v in r] for r in exp]:
+            return f"{skel['api']}(rows {rows_terms(skel, vals)}, window {skel['w']}, matrix[letter][pos]=(letter+1)*10^pos) = {got}, expected {exp}"
+        return None
+
+
 def prelude(tier):
     """differential validation of the BitArray semantic model against the real npstructures routine"""
     import numpy as np
@@ -359,4 +440,4 @@ def prelude(tier):
                 summary=f"BitArray.pack/sliding_window semantic model compared with the real routine on {n} concrete arrays: {len(bad)} differences")
 
 
-HARNESSES = [Kmers(), MinimizersH(), Match(), CountKmers(), KmerText()]
+HARNESSES = [Kmers(), MinimizersH(), Match(), CountKmers(), KmerText(), MotifScores()]
